@@ -13,6 +13,7 @@ RULE = ('cases = (a) a catalogue of malformation operators (unknown target / for
         'of 8 well-formed base models, each through Configuration.read + write and through potable main(); oracle: ConfigurationException subclass / '
         'exit status 2 with "configuration error - " and no non-empty output file; (b) the converse: the base models, every .aspot file shipped '
         'in docs/ and tests/, every target spelling and option value the reference manual lists must be accepted; non-trivial = every mutant')
+RULE += '; further operators: malformed numbers (1000.0.3), argument lists broken after a comma, reserved / non-identifier parameter names, errors inside the block syntax, pymath argument counts, as.buck4 knot order, spline type written as a modifier, malformed formulas that no interaction uses, zero / non-finite grids; converse: tables wrapped over lines with odd value counts, 256..5000-point x / y tables, byte-order mark, CR LF, non-ASCII comments; undecodable bytes (latin-1, UTF-16, binary) must be configuration errors'
 ASSUMPTIONS = [
     'the catalogue defines "structurally malformed": each operator produces input that no reading of the manual makes valid; debatable edits (e.g. pow() with one argument) are not in it',
     'formula errors may surface at the first evaluation: Configuration.read followed by write() is the observation',
